@@ -1166,6 +1166,34 @@ def lib_wire_pixels(rep):
         else:
             rep.violation("W5b-lib-wire-pixel", key, where, {"row_buffer_pixel": px, "problem": "the buffer keeps the memory order of the view: the codec, which is told only the colour type, receives the channels permuted"})
     rep.floor("obligations:W5b", 8)
+    # W5c: the file format fixes the order of the samples (P6: r g b, bmp and targa: b g r [a]); what the writer lays its pixels into before handing the bytes to the
+    # device therefore has ONE pixel type per colour space, whatever the memory order of the view that is being written
+    rep.rule("W5c bmp / pnm / targa writers: the pixel type of every row buffer (a vector of pixels, or an interleaved view laid over a byte buffer) declared in a writer "
+             "function is the same in the instantiation for an rgb(a) view and in the one for a bgr(a) view")
+    groups = {}
+    for f in d["functions"]:
+        fmt = fmt_of(f)
+        if fmt not in ("bmp", "pnm", "targa") or f.get("body") is None or "::writer::" not in "::" + f["name"]:
+            continue
+        for dd, _ in R.find(f["body"], lambda x: x.get("k") == "Decl"):
+            for v in dd["decls"]:
+                ct = v.get("ctype") or ""
+                m = re.search(r"(boost::gil::pixel<[^;]*?boost::gil::layout<boost::mp11::mp_list<(.*?)>, boost::mp11::mp_list<(.*?)>>>)", ct)
+                if not m or not (ct.startswith("std::vector<boost::gil::pixel<") or ct.startswith("boost::gil::image_view<")):
+                    continue
+                cols = tuple(re.findall(r"boost::gil::(\w+)", m.group(2)))
+                idx = tuple(int(x) for x in re.findall(r"std::integral_constant<int, (\d+)>", m.group(3)))
+                groups.setdefault((fmt, f["name"].split("::")[-1], v["name"], cols), {}).setdefault(idx, "%s:%s" % (rel_path(f), dd.get("line")))
+    for (fmt, fn, var, cols), idxs in sorted(groups.items()):
+        rep.count("obligations:W5c")
+        key = "W5c:%s:writer::%s:%s<%s>" % (fmt, fn, var, ",".join(cols))
+        if len(idxs) == 1:
+            rep.ok("W5c-wire-order", key, "channel mapping %s in every instantiation" % (list(idxs)[0],))
+        else:
+            rep.violation("W5c-wire-order", key, sorted(idxs.values())[0], {"channel mappings of the buffer across instantiations": sorted(idxs),
+                          "problem": "the buffer follows the memory order of the view: the bytes of a bgr view reach the file in b,g,r order although the format fixes the order",
+                          "example": "write_view(file, bgr8 view, pnm_tag()) then read_image: red and blue exchanged"})
+    rep.floor("obligations:W5c", 3)
 
 
 class ScanExec(IoExec):
